@@ -200,6 +200,8 @@ def _tagged_units():
             if f.endswith((".vrs", ".spec")):
                 text += open(os.path.join(ud, u, f)).read()
         out[u] = set(re.findall(r"@OBL (C\d\d)\.", text))
+        for also in re.findall(r"@ALSO\s+([\w,]+)", text):
+            out[u] |= {x for x in also.split(",") if x}
     return out
 
 
